@@ -25,7 +25,7 @@ import (
 func TestMain(m *testing.M) { hx.Main(m) }
 
 type spec struct {
-	Kind  string `json:"kind"` // listener | dialer | socket | qlen0 | reject | pairbusy | wrongproto | sibling
+	Kind  string `json:"kind"` // listener | dialer | socket | qlen0 | reject | pairbusy | wrongproto | sibling | detachhook | peerloss
 	Tran  string `json:"tran,omitempty"`
 	Err   string `json:"err,omitempty"`
 	Proto string `json:"proto,omitempty"`
@@ -121,9 +121,21 @@ func TestC12(t *testing.T) {
 			}
 		}
 	}
+	// the last peer is lost, calls fail for want of one, OptionFailNoPeers is toggled around that, a new
+	// peer attaches (appended last)
+	for rep := 0; rep < reps; rep++ {
+		for _, p := range hx.AllProtos {
+			for _, m := range peerLossCorrect {
+				tr := trans[rnd.Intn(len(trans))]
+				cases = append(cases, mon.CaseSpec{Name: "peerloss/" + tr + "/" + p + "/" + m, Spec: spec{Kind: "peerloss", Tran: tr, Proto: p, Err: m}})
+			}
+		}
+	}
 	r.Run(cases, func(c *mon.Case) {
 		sp := c.Spec.(spec)
 		switch sp.Kind {
+		case "peerloss":
+			runPeerLoss(c, sp)
 		case "detachhook":
 			runDetachHook(c, sp)
 		case "listener":
@@ -852,8 +864,13 @@ func runSocket(c *mon.Case, sp spec) {
 
 // carryOn connects a real peer over inproc and runs one exchange in each direction the pattern has.
 func carryOn(c *mon.Case, ctx, p string, s mangos.Socket) bool {
-	s.SetOption(mangos.OptionRecvDeadline, time.Duration(0))
-	s.SetOption(mangos.OptionSendDeadline, time.Duration(0))
+	// REP and RESPONDENT refuse a zero deadline (ErrBadValue): the short deadline of the error catalogue
+	// would stay armed and could expire under load, so fall back to an hour there
+	for _, o := range []string{mangos.OptionRecvDeadline, mangos.OptionSendDeadline} {
+		if s.SetOption(o, time.Duration(0)) != nil {
+			s.SetOption(o, time.Hour)
+		}
+	}
 	s.SetOption(mangos.OptionRetryTime, time.Hour)
 	peer := hx.MustSock(c, hx.PeerOf[p])
 	// the reply must not race the survey's expiry on a loaded machine (the default is one second)
